@@ -159,6 +159,41 @@ func c16r1(c *Ctx, id string) {
 			c.Undecided(id, "discovery", get.Pos(), "%d discovery metric fields written in Get (expected 4)", n)
 		}
 	}
+	// the discovery metric accessor only hands out the struct Get filled (values in effect, not pending ones)
+	for _, gm := range w.implsOf("stream", "VBucketDiscovery", "GetMetric") {
+		c.see(gm)
+		pure := true
+		allInstrs(gm, func(in ssa.Instruction) {
+			if callOf(in) != nil {
+				pure = false
+			}
+			if _, isSt := in.(*ssa.Store); isSt {
+				pure = false
+			}
+		})
+		c.Check(pure, id, "discovery-accessor@"+fname(gm), gm.Pos(), "GetMetric is a plain accessor", "GetMetric recomputes or refreshes values on every scrape: a scrape during a pending membership change reports numbers that are not in effect")
+	}
+	// the stream's metric struct lives as long as the stream; the rebalance count is only ever incremented by the reopen
+	mf := w.Field("stream", "stream", "metric")
+	if mf == nil {
+		c.Undecided(id, "stream-metric", 0, "stream.metric not found")
+	} else {
+		for _, fs := range w.fieldStores(mf) {
+			_, isLit := fs.Store.Addr.(*ssa.FieldAddr).X.(*ssa.Alloc)
+			c.Check(isLit, id, "stream-metric-writer@"+fname(fs.Fn), fs.Store.Pos(), "assigned once, in the constructor", "the stream's metric struct is replaced in "+fname(fs.Fn)+": the process-lifetime rebalance count is reset")
+		}
+	}
+	if rf := w.Field("stream", "Metric", "Rebalance"); rf != nil {
+		n := 0
+		for _, fs := range w.fieldStores(rf) {
+			n++
+			o := w.Origin(fs.Store.Val)
+			c.Check(o == "(recv.metric.Rebalance + const(1))", id, "rebalance-count@"+fname(fs.Fn), fs.Store.Pos(), "Rebalance ← Rebalance + 1", "rebalance count ← "+o)
+		}
+		if n != 1 {
+			c.Undecided(id, "rebalance-count", 0, "%d writers of Metric.Rebalance (expected 1)", n)
+		}
+	}
 	c.Floor(id, 20)
 }
 
